@@ -224,6 +224,26 @@ Definition c08_primal_res (rows : list (list dy)) (x s b : list dy) (eps : dy) :
     evaluated here, by exact equality *)
 Definition c08_same (a b : list dy) : N := if list_rel deqb a b then 0%N else 1%N.
 
+
+(** ** time-limit stream (timers are observed, not modelled).
+    One record per solve of a re-used solver run with a finite [time_limit] L:
+    (status code — 7 = MaxTime —, wall time of the call measured by the harness, reported
+    solution.solve_time), all in seconds; [tnew] = wall time of the constructor call.
+    The solver's clock is the sum of its root timers "setup", "solve" and "post-process"; the
+    last two are reset at the start of every solve; therefore, for a solver that behaves like a fresh one,
+      reported solve_time <= tnew + tcall                       (rule 3, slack 50 us)
+      MaxTime  ->  tnew + tcall > L                             (rule 1)
+    whatever the machine load.  1 = MaxTime although the limit was not exceeded within this
+    call; 3 = reported time exceeds the wall time available to a fresh solver; 4 = both. *)
+Definition tl_early (L tnew : dy) (r : N * dy * dy) : bool :=
+  let '(st, tcall, _) := r in N.eqb st 7 && dltb (dadd tnew tcall) L.
+Definition tl_over (tnew slack : dy) (r : N * dy * dy) : bool :=
+  let '(_, tcall, reported) := r in dltb (dadd (dadd tnew tcall) slack) reported.
+(** 0 = neither rule fires on any solve; 1 = rule 1 only; 3 = rule 3 only; 4 = both *)
+Definition c08_timelimit (L tnew slack : dy) (recs : list (N * dy * dy)) : N :=
+  ((if existsb (tl_early L tnew) recs then 1 else 0) +
+   (if existsb (tl_over tnew slack) recs then 3 else 0))%N.
+
 Definition ofb (b : bool) : N := if b then 0%N else 1%N.
 Definition maxl (l : list N) : N := fold_left N.max l 0%N.
 
